@@ -232,6 +232,28 @@ def wrap(c):
     ]
 
 
+def special_shapes(tier):
+    """Shapes that exercise a shortcut one can imagine in a visitor (each one was the trigger of a
+    seeded change in the detection audit)."""
+    li, ls = ("list", ("typed", INT), ()), ("list", ("typed", STR), ())
+    da, ds = ("dict", (("a", False, INT),), False), ("dict", (("a", False, STR),), False)
+    braces = ("dict", (("/u/{id}", False, INT), ("{}", True, STR), ("{0}", True, NONE)), False)
+    return [
+        # alternatives of one schema class that differ only in their nested members
+        ("any", (li, ls)), ("any", (da, ds)), ("any", (("alias", "I", INT), ("alias", "S", STR))),
+        ("any", (("list", ("elems", (INT,)), ()), ("list", ("elems", (STR,)), ()))),
+        ("any", (("list", ("elems", (INT, E)), ()), ("list", ("elems", (E, STR)), ()))),
+        # None / falsy keys (a key is not a flag), at depth 0, 1 and 2
+        ("dict", ((None, False, INT), ("a", True, STR)), False),
+        ("dict", ((None, False, li),), False),
+        ("dict", ((None, True, ("dict", ((None, False, INT),), False)),), True),
+        ("dict", ((0, False, INT), ("", True, STR)), False),
+        ("list", ("typed", ("dict", ((None, False, INT),), False)), ()),
+        # braces in a str key (format-template characters), alone and as an any alternative
+        braces, ("any", (braces, NONE)), ("list", ("elems", (E, braces, E)), ()),
+    ]
+
+
 def derived(K4):
     d1 = ("dict", (("a", False, K4[0]), ("b", True, K4[2])), False)
     d2 = ("dict", (("b", False, K4[0]), ("c", True, K4[2])), False)
@@ -239,6 +261,9 @@ def derived(K4):
     return [
         ("add", d1, d2), ("add", d2, d1), ("add", d1, d3), ("add", d3, d1),
         ("or", K4[0], K4[2]), ("or", ("or", K4[0], K4[2]), NONE), ("or", K4[1], ("any", (K4[2], NONE))),
+        # a union on the right-hand side too (both operands already declared unions)
+        ("or", ("or", K4[0], K4[2]), ("or", NONE, BOOL)), ("or", ("any", (K4[0], K4[2])), ("any", (NONE,))),
+        ("or", ("or", K4[0], K4[2]), ("any", (("any", (NONE, BOOL)), S("bytes")))),
         ("mkreq", d1, None), ("mkreq", d1, ("b",)), ("mkreq", ("add", d1, d2), ("c",)),
         ("native", None), ("native", 7), ("native", 1.5), ("native", "ab"), ("native", [1, "ab"]),
         ("native", {"a": 1, "b": [True, None]}), ("native", b"ab"), ("native", M.FIX_UUID),
@@ -277,6 +302,7 @@ def universe(tier, derived_terms=True):
     U = list(scalars(tier))
     L1 = containers_over(K, K4, tier)
     U += L1
+    U += special_shapes(tier)
     R1 = reps_l1(K4, tier)
     L2 = []
     for c in R1:
